@@ -11,6 +11,28 @@ void vr_unreachable(void){ __CPROVER_assert(0, "IR unreachable reached"); __CPRO
 void vr_bad_icall(void){ __CPROVER_assert(0, "indirect call to unknown function"); __CPROVER_assume(0); }
 uint64_t nondet_u64(void);
 uint64_t vr_nondet_u64(void){ return nondet_u64(); }
+void* vr_memmove(void* d, const void* s, uint64_t n){
+  if (n == 0 || d == s) return d;
+  if (((uintptr_t)d % 8 == 0) && ((uintptr_t)s % 8 == 0) && n % 8 == 0) {
+    uint64_t* D = (uint64_t*)d; const uint64_t* S = (const uint64_t*)s; uint64_t k = n / 8;
+    if ((uintptr_t)d < (uintptr_t)s) for (uint64_t i = 0; i < k; i++) D[i] = S[i]; else for (uint64_t i = k; i > 0; i--) D[i - 1] = S[i - 1];
+  } else if (((uintptr_t)d % 4 == 0) && ((uintptr_t)s % 4 == 0) && n % 4 == 0) {
+    uint32_t* D = (uint32_t*)d; const uint32_t* S = (const uint32_t*)s; uint64_t k = n / 4;
+    if ((uintptr_t)d < (uintptr_t)s) for (uint64_t i = 0; i < k; i++) D[i] = S[i]; else for (uint64_t i = k; i > 0; i--) D[i - 1] = S[i - 1];
+  } else {
+    char* D = (char*)d; const char* S = (const char*)s;
+    if ((uintptr_t)d < (uintptr_t)s) for (uint64_t i = 0; i < n; i++) D[i] = S[i]; else for (uint64_t i = n; i > 0; i--) D[i - 1] = S[i - 1];
+  }
+  return d;
+}
+void* vr_memcpy(void* d, const void* s, uint64_t n){ return vr_memmove(d, s, n); }
+void* vr_memset(void* d, int c, uint64_t n){
+  if (n == 0) return d;
+  if (((uintptr_t)d % 8 == 0) && n % 8 == 0) { uint64_t v = (uint8_t)c * 0x0101010101010101ULL; for (uint64_t i = 0; i < n / 8; i++) ((uint64_t*)d)[i] = v; }
+  else if (((uintptr_t)d % 4 == 0) && n % 4 == 0) { uint32_t v = (uint8_t)c * 0x01010101U; for (uint64_t i = 0; i < n / 4; i++) ((uint32_t*)d)[i] = v; }
+  else for (uint64_t i = 0; i < n; i++) ((char*)d)[i] = (char)c;
+  return d;
+}
 #else
 void* vr_exc_alloc(uint64_t n){ return malloc(n); }
 void vr_terminate(void){ fprintf(stderr, "vr_terminate\n"); abort(); }
